@@ -42,6 +42,9 @@ type Gen struct {
 	WellFormedMath    bool // formulas are well-formed OMML fragments
 	NoTableTemplates  bool // ApplyTableStyle only with style ids the registry defines
 	AllowStyleRemoval bool
+	NoAddText         bool // no text is added to existing paragraphs
+	TableNewOnly      bool // tables are only created (with tagged cell data), never edited
+	NoCellImage       bool
 	StyleEdits        bool // registered styles are also changed in place through the public structs
 	NoCellList        bool // no lists inside table cells (they use the process-wide numbering registry)
 	ObsEvery          int  // > 0: about one accessor sweep ("obs") every ObsEvery ops
@@ -198,7 +201,7 @@ func (g *Gen) opBody() (sim.Op, bool) {
 		g.nparas--
 		return sim.Op{K: "pbreak"}, true
 	default:
-		if g.nparas <= 1 {
+		if g.nparas <= 1 || g.NoAddText {
 			return sim.Op{K: "para", S: []sim.Str{g.str(g.Text())}}, true
 		}
 		g.nparas--
@@ -268,10 +271,13 @@ func (g *Gen) cells(n int) []sim.Str {
 
 func (g *Gen) opTable() (sim.Op, bool) {
 	r := g.R
-	if g.ntables == 0 || r.Chance(0.15) {
+	if g.ntables == 0 || r.Chance(0.15) || g.TableNewOnly {
 		rows, cols := r.Range(1, g.MaxRows), r.Range(1, g.MaxCols)
 		g.ntables++
 		op := sim.Op{K: "t.new", I: []int{rows, cols, []int{0, 5000, 9000}[r.Intn(3)], r.Intn(2), r.Intn(2)}}
+		if g.TableNewOnly {
+			op.I[4] = 1
+		}
 		if op.I[4] != 0 {
 			op.S = g.cells(rows * cols)
 		}
@@ -415,7 +421,7 @@ func (g *Gen) opImage() (sim.Op, bool) {
 	op := sim.Op{K: "img", I: []int{f, r.Range(1, 48), r.Range(1, 48), g.tag*7919 + r.Intn(1000), []int{0, 1, 2, 3, 4, 9}[r.Intn(6)], r.Intn(4), r.Intn(5), r.Intn(4)},
 		F: []float64{float64(r.Range(5, 150)), float64(r.Range(5, 150)), float64(r.Intn(20)), float64(r.Intn(20))},
 		S: []sim.Str{g.str(g.ImageName(f)), g.str(g.PlainText()), g.str(g.PlainText())}}
-	if g.ntables > 0 && r.Chance(0.25) {
+	if g.ntables > 0 && r.Chance(0.25) && !g.NoCellImage {
 		op.K = "cellimg"
 		op.I = append(op.I, r.Intn(g.ntables), r.Range(0, g.MaxRows-1), r.Range(0, g.MaxCols-1))
 		if op.I[4] > 3 {
